@@ -658,6 +658,48 @@ func (g *Gen) runLedger(nops int) {
 	}
 	g.do(fmt.Sprintf("block %d %d", g.height, g.time))
 	g.do("begin")
+	if g.mon != nil && g.mon.prop == "C13" && g.rng.Intn(3) == 0 {
+		// timeouts are not monotone in the batch nonce: a batch built after a long quiet stretch gets a timeout from a
+		// projected external height; the next event corrects the height downwards, so a later batch times out earlier
+		chain := g.pick([]string{"ethereum", "bsc"})
+		if toks := g.tokensOn(chain); len(toks) > 0 {
+			t := toks[0]
+			acc := g.accounts[0]
+			g.do(fmt.Sprintf("fund %s %s 1000000000000000000000", acc, t.denom))
+			deposit := func(h uint64) {
+				n := g.nextEvt[chain]
+				g.nextEvt[chain]++
+				g.extH[chain] = h
+				g.voteAll(chain, fmt.Sprintf("sth %d %s %d %s %s %d 0x%s", n, t.ext, 1000000, g.pick(g.recips), acc, h, g.nextTag()))
+				g.block()
+			}
+			deposit(g.extH[chain] + 1)
+			for k := 0; k < 120; k++ {
+				g.block()
+			}
+			g.do(fmt.Sprintf("send %s %s %s %s %d %d %s", acc, chain, g.pick(g.recips), t.denom, 2000000000000000000, 3000000000000000, g.nextTag()))
+			g.do(fmt.Sprintf("reqbatch %s %s", chain, t.denom))
+			deposit(g.extH[chain] + 1)
+			g.do(fmt.Sprintf("send %s %s %s %s %d %d %s", acc, chain, g.pick(g.recips), t.denom, 2000000000000000000, 1000000000000000, g.nextTag()))
+			g.do(fmt.Sprintf("reqbatch %s %s", chain, t.denom))
+			var lo, hi uint64
+			for _, b := range g.env.Batches(g.env.ctx, chain) {
+				if b.ExternalTokenId == t.ext {
+					if lo == 0 || b.Timeout < lo {
+						lo = b.Timeout
+					}
+					if b.Timeout > hi {
+						hi = b.Timeout
+					}
+				}
+			}
+			if lo > 0 && hi > lo+1 {
+				g.stats["ledger:later-batch-times-out-first"]++
+				deposit(lo + 1)
+				g.block()
+			}
+		}
+	}
 	if g.mon != nil && g.mon.prop == "C12" && g.rng.Intn(3) == 0 && g.outTimeoutMs > 0 {
 		// one account's first transfers to two chains get the same id (ids are per chain); the earlier one expires while the
 		// later one is still fresh
@@ -765,6 +807,31 @@ func (g *Gen) runLedger(nops int) {
 				g.do(fmt.Sprintf("world restart:%d", 1+g.rng.Intn(2)))
 				g.stats["det:node-restart"]++
 			}
+		case g.closedLoop && x >= 78 && x < 80:
+			// a Byzantine minority: the weakest validator alone claims, at the next event nonce, an event that never happened,
+			// at an external height far in the future; it can never reach the quorum
+			chain := g.pick([]string{"ethereum", "bsc"})
+			toks := g.tokensOn(chain)
+			if len(toks) == 0 || len(g.vals) < 3 {
+				break
+			}
+			weakest, total := -1, int64(0)
+			for i, v := range g.vals {
+				if !v.bonded {
+					continue
+				}
+				total += v.power
+				if weakest < 0 || v.power < g.vals[weakest].power {
+					weakest = i
+				}
+			}
+			if weakest < 0 || (total-g.vals[weakest].power)*100 < 67*total {
+				break
+			}
+			n := g.nextEvt[chain]
+			g.do(fmt.Sprintf("vote %s %s sth %d %s 1 %s %s %d 0xbogus%d", chain, g.vals[weakest].addr, n, toks[0].ext, g.pick(g.recips), g.pick(g.accounts), g.extH[chain]+1000000+uint64(g.rng.Intn(1000000)), n))
+			g.stats["loop:byzantine-claim-with-a-far-future-height"]++
+			g.block()
 		case x < 74 || (g.closedLoop && x < 78):
 			// a quiet stretch: blocks pass, nothing is reported from outside
 			k := 3 + g.rng.Intn(14)
